@@ -417,3 +417,29 @@ Proof.
     eapply subseq_trans; [apply subseq_tl | exact K].
   - intro H; inversion H; subst; exact K.
 Qed.
+
+(** ** permutations of edge lists by counting *)
+Definition edge_dec (e f : pt * pt) : {e = f} + {e <> f}.
+Proof. decide equality; apply pt_dec. Defined.
+
+Ltac perm_count :=
+  let xx := fresh "xx" in
+  apply (Permutation_count_occ edge_dec); intro xx;
+  repeat match goal with
+         | H : Permutation ?l1 ?l2 |- _ =>
+             let H' := fresh "Hc" in
+             pose proof (proj1 (Permutation_count_occ edge_dec l1 l2) H xx) as H'; clear H
+         end;
+  rewrite ?map_app, ?concat_app, ?count_occ_app in *; cbn [map concat] in *;
+  rewrite ?map_app, ?concat_app, ?count_occ_app, ?app_nil_r in *;
+  change (count_occ edge_dec [] xx) with 0%nat in *; lia.
+
+Lemma Permutation_concat_map {A B} (f : A -> list B) (l l' : list A) :
+  Permutation l l' -> Permutation (concat (map f l)) (concat (map f l')).
+Proof.
+  induction 1 as [| x l l' H IH | x y l | l l' l'' H1 IH1 H2 IH2]; cbn [map concat].
+  - constructor.
+  - apply Permutation_app_head, IH.
+  - rewrite !app_assoc. apply Permutation_app_tail, Permutation_app_comm.
+  - eapply Permutation_trans; eassumption.
+Qed.
